@@ -867,14 +867,23 @@ func (c Case) hasNegativeIndex() bool {
 	return false
 }
 
-// refNilAtMethod: in the reference walk a method call meets a nil pointer (for
-// a loop: for some element).
+// refNilAtMethod: in the reference walk a nil pointer is met and a method call
+// is still to come (for a loop: for some element).
 func refNilAtMethod(start cur, c Case) bool {
 	at := func(from cur, steps []Step) (cur, bool, bool) { // value, completed, nil-at-method
-		for _, s := range steps {
+		for i, s := range steps {
 			var why string
 			if from, why, _ = apply(from, s); why != "" {
-				return from, false, (why == "nil-pointer" || why == "unspec:ptr-method-on-nil") && s.M != ""
+				if why != "nil-pointer" && why != "unspec:ptr-method-on-nil" {
+					return from, false, false
+				}
+				// plush carries the nil on through field selections; the next call meets it
+				for _, later := range steps[i:] {
+					if later.M != "" {
+						return from, false, true
+					}
+				}
+				return from, false, false
 			}
 		}
 		return from, true, false
